@@ -97,8 +97,10 @@ theorem not_pendingEff_compile (op : COp) : ¬ (Instr.check ∉ compile op ∧ e
   cases op with
   | close => simp [compile, effsOf] at h2
   | commit b v r ws => simp [compile] at h1
+  | fcommit b v r ws => simp [compile] at h1
   | batchOp b => simp [compile, batchCode, effsOf] at h2
-  | _ => simp [compile, readCode, writeCode, iterCode, flagCode] at h1
+  | callback => simp [compile, effsOf] at h2
+  | _ => simp [compile, readCode, writeCode, fwriteCode, iterCode, flagCode] at h1
 
 theorem effsOf_cons_ne (i : Instr) (rest : List Instr) (hi : ∀ a, i ≠ .eff a) : effsOf (i :: rest) = effsOf rest := by
   cases i <;> simp_all [effsOf]
